@@ -1,7 +1,8 @@
 (* C03 — property theorems (statements only; proofs live in Proofs*.v).
    All statements quantify over ALL worlds / vectors / operands, no bounds. *)
 From Coq Require Import ZArith List Bool Lia.
-From ADV Require Import C11.Model C11.Spec C03.Model C03.Spec C03.ProofsDense C03.ProofsSem C03.ProofsJoint C03.ProofsConv C03.ProofsOps.
+From ADV Require Import C11.Model C11.Spec C03.Model C03.Spec C03.ProofsDense C03.ProofsSem C03.ProofsJoint C03.ProofsConv C03.ProofsOps
+                        C03.ModelM C03.ProofsM.
 Import ListNotations.
 Open Scope Z_scope.
 
@@ -208,3 +209,28 @@ Example sparse_receiver_instance :
   operand3 w 0 (RD 0) /\ operand3 w 0 (RS 1) /\ has (sw w) 0 /\
   abs3 (fst (step3 TFloat w (VopV Add (RS 0) (RD 0) (RS 1)))) (RS 0) = [0; 0; 3; 0; 0].
 Proof. vm_compute. repeat split; auto; try lia; discriminate. Qed.
+
+(* ---- E. matrices -------------------------------------------------------------------
+   The matrix operations (sparse matrix = header over one sparse vector of the
+   world, dense matrix = row-major list; MaddM .. MdivS, MdotM, Outer, MdotV,
+   VdotM, Set, SetIdentity, Reset, Equals, conversions) are modelled in
+   ModelM.v and tied to the implementation by the correspondence.  PARTIAL: no
+   universally quantified theorem is proved about them here (the element-wise
+   ones run the same loops as the vector operations above, on the values
+   vector, but through the matrix joint iterators whose Ok() is value based).
+   What IS proved: the unchanged code violates the property in two places, and
+   the model exhibits both. *)
+(* known finding C03-MDOTM-STALE *)
+Theorem mdotm_stale_refuted :
+  let w := run4 TFloat init4 [NewSM [0] [7] 1 1; NewDM [7] 1 1; NewDM [2] 1 1; NewDM [3] 1 1] in
+  mabs w (XS 0) = mabs w (XD 0) /\
+  mabs (fst (step4 TFloat w (MdotM (XD 0) (XD 1) (XD 2)))) (XD 0) = [6] /\
+  mabs (fst (step4 TFloat w (MdotM (XS 0) (XD 1) (XD 2)))) (XS 0) = [13].
+Proof. exact mdotm_stale_refuted_lemma. Qed.
+(* known finding C03-MEQ-ABSENT *)
+Theorem mequals_absent_refuted :
+  let w := run4 TFloat init4 [NewSM [] [] 1 1; NewDM [0] 1 1; NewDM [1] 1 1] in
+  mabs w (XS 0) = mabs w (XD 0) /\
+  snd (step4 TFloat w (MEquals (XD 0) (XD 1) 5)) = (K_OK, [1]) /\
+  snd (step4 TFloat w (MEquals (XS 0) (XD 1) 5)) = (K_OK, [0]).
+Proof. exact mequals_absent_refuted_lemma. Qed.
